@@ -130,7 +130,14 @@ class RenderContext:
         """Resolve the variable _path_ in the current namespace."""
         it = iter(path)
         root = next(it)
-        assert isinstance(root, str)
+
+        if not isinstance(root, str):
+            # `[1]`, or `[a.b]` where a.b is not a string, names no variable.
+            if default == UNDEFINED:
+                name = root.__class__.__name__
+                hint = f"a variable name must be a string, found {name}"
+                return self.env.undefined(name, hint=hint, token=token)
+            return default
 
         try:
             obj = self.scope[root]
@@ -166,7 +173,14 @@ class RenderContext:
         """Asynchronously resolve the variable _path_ in the current namespace."""
         it = iter(path)
         root = next(it)
-        assert isinstance(root, str)
+
+        if not isinstance(root, str):
+            # `[1]`, or `[a.b]` where a.b is not a string, names no variable.
+            if default == UNDEFINED:
+                name = root.__class__.__name__
+                hint = f"a variable name must be a string, found {name}"
+                return self.env.undefined(name, hint=hint, token=token)
+            return default
 
         try:
             obj = self.scope[root]
